@@ -558,8 +558,36 @@ impl Case for C19Case {
                     detail: format!("{:?}: {}", door, first_diff(&p0, &p1)),
                 });
             }
+            // a direct statement that fails (still under TRON) is reported without a line number and
+            // traces nothing; an interrupted direct loop breaks without a line number
+            let o = w.line("PRINT CHR$(-1)", &LineIo::budget(200));
+            let t = tokens(&w.events[o.ev_start..o.ev_end]);
+            let ok = matches!(t.as_slice(), [Tok::Err(e)] if e == "?OVERFLOW");
+            if !ok && fail.is_none() && w.fatal.is_none() {
+                fail = Some(Violation {
+                    key: "C19:failing-direct-statement".into(),
+                    detail: format!("PRINT CHR$(-1) typed after the door (TRON on) gave {:?}", t),
+                });
+            }
             w.line("TROFF", &LineIo::budget(100));
             harmless(&mut w, &mut fail, "after the door");
+            let io_brk = LineIo {
+                intrs: vec![When::Instr(15)],
+                max_instr: 200,
+                ..Default::default()
+            };
+            let o = w.line("WHILE 1:WEND", &io_brk);
+            let brk: Vec<String> = w.events[o.ev_start..o.ev_end]
+                .iter()
+                .filter_map(|e| if let Ev::Errors(es) = e { Some(es.iter().map(|x| x.text.clone()).collect::<Vec<_>>()) } else { None })
+                .flatten()
+                .collect();
+            if brk != vec!["?BREAK".to_string()] && fail.is_none() && w.fatal.is_none() {
+                fail = Some(Violation {
+                    key: "C19:interrupted-direct-loop".into(),
+                    detail: format!("WHILE 1:WEND typed after the door and interrupted after 15 instructions reported {:?}", brk),
+                });
+            }
             // (i) completeness: RUN reports every planted fault
             let o = w.line("RUN", &LineIo::budget(5000));
             let mut reported: Vec<ErrInfo> = vec![];
@@ -897,7 +925,7 @@ impl Property for C19 {
         }
     }
     fn rule(&self) -> &'static str {
-        "one evaluation = a clean generated program typed into the real runtime, optionally RUN to its end or to a Ctrl-C at a seeded instruction (leaving frames, a CONT point, defined functions), then 1-4 planted faults typed as edits (dangling reference in GOTO / GOSUB / IF..THEN n / ELSE n / IF..GOTO n / ON..GOTO / ON..GOSUB / RESTORE n / RUN n, stray WHILE or WEND, token-level syntax damage; on a new line or in front of an existing line; 0-2 ASCII / multi-byte statements before the fault), then TRON and one of 13 doors (RUN, RUN n, GOTO n, GOSUB n, ON 1 GOTO n, ON 1 GOSUB n, IF 1 THEN n, FOR..GOSUB n..NEXT, CONT, RETURN, NEXT, PRINT FNx(..), RUN \"file\" from the SimDisk), in 40% followed by CONT, in 25% typed behind `PRINT \"X\";:`; 6% of the programs damage themselves (their first line DELETEs the target of a later GOTO, RUN first); variable probes before and after, harmless PRINT before and after, RUN and LIST for the diagnostics; distinct = distinct API/event log fingerprint; non-trivial = damage was placed and the listing is what was typed"
+        "one evaluation = a clean generated program typed into the real runtime, optionally RUN to its end or to a Ctrl-C at a seeded instruction (leaving frames, a CONT point, defined functions), then 1-4 planted faults typed as edits (dangling reference in GOTO / GOSUB / IF..THEN n / ELSE n / IF..GOTO n / ON..GOTO / ON..GOSUB / RESTORE n / RUN n, stray WHILE or WEND, token-level syntax damage; on a new line or in front of an existing line; 0-2 ASCII / multi-byte statements before the fault), then TRON and one of 13 doors (RUN, RUN n, GOTO n, GOSUB n, ON 1 GOTO n, ON 1 GOSUB n, IF 1 THEN n, FOR..GOSUB n..NEXT, CONT, RETURN, NEXT, PRINT FNx(..), RUN \"file\" from the SimDisk), in 40% followed by CONT, in 25% typed behind `PRINT \"X\";:`; 6% of the programs damage themselves (their first line DELETEs the target of a later GOTO, RUN first); variable probes before and after, harmless PRINT before and after, a failing direct statement under TRON and an interrupted direct loop after the door (reported without a line number, nothing traced), RUN and LIST for the diagnostics; distinct = distinct API/event log fingerprint; non-trivial = damage was placed and the listing is what was typed"
     }
     fn assumptions(&self) -> Vec<&'static str> {
         vec![
